@@ -36,7 +36,8 @@ _FLOORS = _load_floors()
 
 
 class Instance:
-    def __init__(self, cx, iid, rule, text, floor=1):
+    def __init__(self, cx, iid, rule, text, floor=1, exact_floor=True):
+        self.exact_floor = exact_floor
         self.cx = cx
         self.iid = iid
         self.rule = rule
@@ -95,12 +96,14 @@ class Cx:
         self._fa = {}
         self.extra = {}
 
-    def instance(self, iid, rule, text, floor=1):
-        return Instance(self, iid, rule, text, floor)
+    def instance(self, iid, rule, text, floor=1, exact_floor=True):
+        """exact_floor=False: the recorded site count of floors.json is not applied (inventory-style rules whose
+        site count legitimately shrinks under behaviour-preserving edits); the given floor still is"""
+        return Instance(self, iid, rule, text, floor, exact_floor)
 
     def _close(self, inst):
         fl = _FLOORS.get(inst.iid)
-        if fl is not None and fl > inst.floor:
+        if fl is not None and fl > inst.floor and inst.exact_floor:
             inst.floor = fl
         if len(inst.sites) < inst.floor and not any(v["fn"] == "<anchor>" for v in inst.violations):
             inst.violation(
